@@ -1,6 +1,7 @@
 package main
 
 import (
+	"strings"
 	"bytes"
 	"encoding/binary"
 	"encoding/json"
@@ -274,6 +275,15 @@ func cborencGen(args []string) error {
 				for i := range b {
 					b[i] = byte(32 + r.Intn(95))
 				}
+				if big && r.Intn(8) == 0 { // long text made of multi-byte characters only (every offset is inside some character)
+					ch := []string{"\u3042", "\u00e9", "\U0001F310"}[r.Intn(3)]
+					b = []byte(strings.Repeat(ch, []int{32768, 32769, 49152, 65537}[r.Intn(4)]/len(ch)+r.Intn(3)))
+					if r.Intn(2) == 0 {
+						b = append([]byte("a"), b...)
+					}
+					c.S = ints(b)
+					break
+				}
 				switch r.Intn(5) {
 				case 0: // some multi-byte runes
 					b = append(b, []byte("é€🌐\ufffd")...)
@@ -298,6 +308,17 @@ func cborencGen(args []string) error {
 						k = &cnode{mt: 3, data: bytes.Repeat([]byte{byte('a' + r.Intn(3))}, []int{1, 2, 23, 24, 25}[r.Intn(5)])}
 					}
 					c.Es = append(c.Es, kv{ints(enc(k)), ints(enc(genNode(r, 2)))})
+				}
+				if r.Intn(6) == 0 { // distinct keys that differ only in letter case / in bytes that are not UTF-8
+					pi := r.Intn(3)
+					pair := [][2][]byte{{[]byte("Content-Type"), []byte("content-type")}, {[]byte("A"), []byte("a")}, {{0x80}, {0x81}}}[pi]
+					kmt := 2
+					if pi < 2 {
+						kmt += r.Intn(2)
+					}
+					for _, kb := range pair {
+						c.Es = append(c.Es, kv{ints(enc(&cnode{mt: kmt, data: kb})), ints(enc(genNode(r, 1)))})
+					}
 				}
 				if m > 0 && r.Intn(5) == 0 { // equal keys
 					c.Es = append(c.Es, kv{c.Es[r.Intn(m)].K, ints(enc(genNode(r, 1)))})
